@@ -10,9 +10,11 @@ use crate::{
 };
 use std::{
     cell::RefCell,
-    collections::{BTreeMap, HashSet},
+    collections::HashSet,
     sync::Arc,
 };
+
+use indexmap::IndexMap;
 
 type Mutable<T> = Arc<RefCell<T>>;
 
@@ -198,7 +200,7 @@ impl Environment {
                     .last_mut()
                     .unwrap()
                     .borrow_mut()
-                    .remove(&variable);
+                    .shift_remove(&variable);
             }
             self.scopes.last_variable_index = None;
 
@@ -208,7 +210,7 @@ impl Environment {
                     .last_mut()
                     .unwrap()
                     .borrow_mut()
-                    .remove(&func);
+                    .shift_remove(&func);
             }
             for mixin in forwarded_mixin_names {
                 (*self.scopes.mixins)
@@ -216,13 +218,13 @@ impl Environment {
                     .last_mut()
                     .unwrap()
                     .borrow_mut()
-                    .remove(&mixin);
+                    .shift_remove(&mixin);
             }
         }
     }
 
     pub fn to_implicit_configuration(&self) -> Configuration {
-        let mut configuration = BTreeMap::new();
+        let mut configuration = IndexMap::new();
 
         let variables = (*self.scopes.variables).borrow();
 
@@ -399,15 +401,15 @@ impl Environment {
         &mut self.scopes
     }
 
-    pub fn global_vars(&self) -> Arc<RefCell<BTreeMap<Identifier, Value>>> {
+    pub fn global_vars(&self) -> Arc<RefCell<IndexMap<Identifier, Value>>> {
         self.scopes.global_variables()
     }
 
-    pub fn global_mixins(&self) -> Arc<RefCell<BTreeMap<Identifier, Mixin>>> {
+    pub fn global_mixins(&self) -> Arc<RefCell<IndexMap<Identifier, Mixin>>> {
         self.scopes.global_mixins()
     }
 
-    pub fn global_functions(&self) -> Arc<RefCell<BTreeMap<Identifier, SassFunction>>> {
+    pub fn global_functions(&self) -> Arc<RefCell<IndexMap<Identifier, SassFunction>>> {
         self.scopes.global_functions()
     }
 
